@@ -57,7 +57,7 @@ def check(run, replay=None):
                 "built body is delivered to the target's real execute entry point / answered by its real query entry point; "
                 "InstantiateBuilder with every order of label/admin/funds setters, with and without salt; admin helpers; "
                 "non-trivial = distinct operation")
-    libcommon.preamble(run, "Props/C10", THEOREMS)
+    libcommon.preamble(run, "Props/C10", THEOREMS, needs=())
     # tie by translation of builder/instantiate.rs; when not established, more builder sessions are compared below
     tie = run.prove("Props/C10T", THEOREMS_T, strengthening=True)
     n = 40 if thorough else 8
